@@ -29,8 +29,10 @@ import (
 	"strconv"
 	"strings"
 	"testing"
+	"unsafe"
 
 	"github.com/lni/dragonboat/v4/config"
+	"github.com/lni/goutils/random"
 	pb "github.com/lni/dragonboat/v4/raftpb"
 )
 
@@ -154,6 +156,7 @@ type vNode struct {
 	aq      *pb.Snapshot
 	mem     vMem
 	lastRto uint64
+	bootVoters []uint64
 }
 
 type vSim struct {
@@ -172,6 +175,7 @@ type vSim struct {
 	nextCtx  uint64
 	blocked  map[[2]uint64]bool
 	firstKind map[uint64]string // kind under which an id was first admitted on any replica
+	fair      bool
 	stats    map[string]int
 }
 
@@ -197,15 +201,22 @@ func (s *vSim) cfg(n *vNode) config.Config {
 	}
 }
 
-// the process-global random source decides election timeouts in the real code;
-// to keep schedules reproducible the simulator re-draws the value from its own
-// seeded generator whenever the real code re-randomized it.
+// the process-global random source decides election timeouts in the real code; it is re-seeded
+// at the start of every trace (its source field is unexported, hence reflect + unsafe) so that a
+// schedule is reproducible from its seed. In the fault-free period of the progress check the
+// replicas get pairwise distinct timeouts instead.
+func seedGlobalRand(seed int64) {
+	v := reflect.ValueOf(random.LockGuardedRand).Elem().FieldByName("source")
+	p := unsafe.Pointer(v.UnsafeAddr())
+	*(*rand.Source64)(p) = rand.NewSource(seed).(rand.Source64)
+}
+
 func (s *vSim) fixRto(n *vNode) {
 	r := n.peer.raft
-	if r.randomizedElectionTimeout != n.lastRto {
-		r.randomizedElectionTimeout = s.et + uint64(s.rng.Intn(int(s.et)))
-		n.lastRto = r.randomizedElectionTimeout
+	if s.fair {
+		r.randomizedElectionTimeout = s.et + (n.id-1)%s.et
 	}
+	n.lastRto = r.randomizedElectionTimeout
 }
 
 // ---------------------------------------------------------------- projection
@@ -509,13 +520,18 @@ func (s *vSim) proj(n *vNode) jNode {
 	}
 	j.DropR = sortedKeys(dr)
 	j.Etick, j.Htick, j.Rto = r.electionTick, r.heartbeatTick, r.randomizedElectionTimeout
-	seen := map[string]bool{}
+	seen := map[string]pb.Message{}
+	keys := []string{}
 	for _, m := range r.msgs {
 		k := msgKey(m)
-		if !seen[k] {
-			seen[k] = true
-			j.Msgs = append(j.Msgs, projMsg(m))
+		if _, ok := seen[k]; !ok {
+			seen[k] = m
+			keys = append(keys, k)
 		}
+	}
+	sort.Strings(keys) // broadcast order follows map iteration: canonical order for a reproducible trace
+	for _, k := range keys {
+		j.Msgs = append(j.Msgs, projMsg(seen[k]))
 	}
 	if r.log.inmem.snapshot != nil {
 		j.Snap = projSnap(*r.log.inmem.snapshot)
@@ -586,7 +602,7 @@ func (s *vSim) emit(e jEvent, n *vNode) {
 // ---------------------------------------------------------------- steps
 
 func (s *vSim) boot(id uint64, voters []uint64) {
-	n := &vNode{id: id, kind: "V", up: true, started: true, db: &vLogDB{}, mem: newVMem()}
+	n := &vNode{id: id, kind: "V", up: true, started: true, db: &vLogDB{}, mem: newVMem(), bootVoters: voters}
 	s.nodes[id] = n
 	addrs := []PeerAddress{}
 	for _, v := range voters {
@@ -835,6 +851,16 @@ func (s *vSim) crash(n *vNode) {
 
 func (s *vSim) restart(n *vNode) {
 	db := n.db
+	if pb.IsEmptyState(db.state) && len(db.entries) == 0 && db.snapshot.Index == 0 && db.markerIndex == 0 {
+		// nothing was ever saved: the NodeHost starts the replica as a new one again, from the
+		// bootstrap record it saved before the first launch (node.startRaft: newNode)
+		if len(n.bootVoters) > 0 {
+			s.boot(n.id, n.bootVoters)
+		} else {
+			s.join(n.id, n.kind)
+		}
+		return
+	}
 	ss := db.snapshot
 	if ss.Index > db.markerIndex {
 		// the log reader starts at the recorded snapshot (node.replayLog)
@@ -945,6 +971,7 @@ func (s *vSim) leaders() []*vNode {
 }
 
 type simOpts struct {
+	scenarios bool
 	steps    int
 	maxN     int
 	chaos    int // 0..100
@@ -960,6 +987,9 @@ type simOpts struct {
 type phase struct {
 	left      int
 	isolated  uint64 // replica cut off (0 = none)
+	pairA     uint64 // a single link cut in both directions (0 = none): pairA <-> pairB
+	pairB     uint64
+	wDrop     int    // extra message loss during the phase
 	delay     bool   // messages on cut links are kept (delivered after heal) rather than lost
 	noApply   uint64 // replica whose apply worker is stalled
 	noReady   uint64 // replica whose step worker does not get to save/send
@@ -990,7 +1020,15 @@ func (s *vSim) newPhase(o simOpts) phase {
 	if s.rng.Intn(100) >= o.chaos {
 		return ph
 	}
-	switch s.rng.Intn(8) {
+	switch s.rng.Intn(10) {
+	case 8, 9: // only the link between the leader and one follower is cut; that follower can still
+		// reach the others (pre-vote / vote traffic flows, part of it gets lost), the leader goes on
+		ph.pairA = pickLeader()
+		ph.pairB = pick()
+		ph.wPropose = 120
+		ph.wDrop = 60
+		ph.wTickOne = ph.pairB
+		ph.left += 20
 	case 0, 1: // isolate (preferably the leader), it keeps getting proposals
 		ph.isolated = pickLeader()
 		ph.delay = s.rng.Intn(2) == 0
@@ -1024,6 +1062,10 @@ func (s *vSim) newPhase(o simOpts) phase {
 }
 
 func (s *vSim) linkCut(ph *phase, from, to uint64) bool {
+	if ph.pairA != 0 && ph.pairA != ph.pairB &&
+		((from == ph.pairA && to == ph.pairB) || (from == ph.pairB && to == ph.pairA)) {
+		return true
+	}
 	return ph.isolated != 0 && (from == ph.isolated || to == ph.isolated)
 }
 
@@ -1041,10 +1083,20 @@ func (s *vSim) randomRun(o simOpts) {
 	for i := 1; i <= nInit; i++ {
 		voters = append(voters, uint64(i))
 	}
+	scen := 0
+	if o.scenarios && s.tid%8 >= 5 {
+		// an adversarial prefix (attack schedule) instead of a random start, then random steps
+		scen = s.tid%8 - 4
+		nInit = 3
+		voters = []uint64{1, 2, 3}
+	}
 	for _, id := range voters {
 		s.boot(id, voters)
 	}
 	nextID := uint64(nInit + 1)
+	if scen > 0 {
+		nextID = s.scenario(scen, nextID)
+	}
 	ph := phase{left: 20 + s.rng.Intn(40), wPropose: 60, wCC: 15, wSnap: 8, wDeliver: 250, wRead: 40, wXfer: 6}
 	for s.step < o.steps {
 		if ph.left <= 0 {
@@ -1079,8 +1131,9 @@ func (s *vSim) randomRun(o simOpts) {
 		wTick, wReady, wApply := 180, 230, 140
 		wDrop, wCrash, wJoin, wStatus := 0, 0, 10, 6
 		chaos := s.rng.Intn(100) < o.chaos
+		wDrop += ph.wDrop
 		if chaos {
-			wDrop = 25
+			wDrop += 25
 			if o.crash {
 				wCrash = 15
 			}
@@ -1250,6 +1303,230 @@ func (s *vSim) randomRun(o simOpts) {
 	}
 }
 
+// ---------------------------------------------------------------- attack schedules
+//
+// Scripted adversarial prefixes, one per safety / liveness mechanism that random schedules reach
+// too rarely (DESIGN.md, attack replay). Each is a legal schedule: on correct code the guarded
+// step is refused and the run goes on normally; on code where the mechanism is broken the
+// property monitors of RaftSys.tla see the violation on the real state a few steps later.
+
+// settle runs fair rounds (tick, deliver, save/send, apply) with a link filter and an apply filter
+func (s *vSim) settle(rounds int, cut func(pb.Message) bool, noApply map[uint64]bool, noTick map[uint64]bool, until func() bool) {
+	for i := 0; i < rounds; i++ {
+		if until != nil && until() {
+			return
+		}
+		for _, n := range s.upNodes() {
+			if !noTick[n.id] {
+				s.tick(n)
+			}
+		}
+		for pass := 0; pass < 3; pass++ {
+			for _, m := range s.sortedNet() {
+				if _, ok := s.net[msgKey(m)]; !ok {
+					continue
+				}
+				if cut != nil && cut(m) {
+					s.drop(m)
+					continue
+				}
+				s.deliver(m, false)
+			}
+			for _, n := range s.upNodes() {
+				if n.peer.HasUpdate(true) {
+					s.ready(n)
+				}
+				for !noApply[n.id] && (n.aq != nil || len(n.alist) > 0) {
+					s.applyOne(n)
+				}
+			}
+		}
+	}
+}
+
+func (s *vSim) leaderNode() *vNode {
+	var best *vNode
+	for _, n := range s.leaders() {
+		if best == nil || n.peer.raft.term > best.peer.raft.term {
+			best = n
+		}
+	}
+	return best
+}
+
+func (s *vSim) scenario(k int, nextID uint64) uint64 {
+	s.settle(40, nil, nil, nil, func() bool { return s.leaderNode() != nil && s.leaderNode().applied >= 4 })
+	l := s.leaderNode()
+	if l == nil {
+		return nextID
+	}
+	others := []*vNode{}
+	for _, n := range s.upNodes() {
+		if n.id != l.id {
+			others = append(others, n)
+		}
+	}
+	x, y := others[s.rng.Intn(2)], others[0]
+	if x == y {
+		y = others[1]
+	}
+	switch k {
+	case 1:
+		// a follower cut off from the leader only gets to a higher term without winning (its vote
+		// requests are lost) while the leader goes on committing: when the link heals the stale
+		// leader must be told about the higher term (NoOP reply) or the shard never converges
+		cut := func(m pb.Message) bool {
+			if (m.From == l.id && m.To == x.id) || (m.From == x.id && m.To == l.id) {
+				return true
+			}
+			return m.From == x.id && m.Type == pb.RequestVote
+		}
+		for i := 0; i < 30 && x.peer.raft.term <= l.peer.raft.term; i++ {
+			s.settle(1, cut, nil, map[uint64]bool{y.id: true}, nil)
+		}
+		for i := 0; i < 3; i++ {
+			if l.peer.raft.state == leader {
+				s.nextVal++
+				s.propose(l, s.nextVal)
+			}
+			s.settle(1, cut, nil, map[uint64]bool{y.id: true, x.id: true}, nil)
+		}
+	case 2:
+		// two membership changes committed but not applied on a follower, then a leadership
+		// transfer to that follower: it must not campaign with its stale, smaller configuration
+		stall := map[uint64]bool{x.id: true}
+		for _, add := range []uint64{nextID, nextID + 1} {
+			s.proposeCC(l, opAddNode, add)
+			s.settle(6, nil, stall, nil, nil)
+			if _, ok := s.firstKind[add]; ok && s.nodes[add] == nil {
+				s.join(add, "V")
+			}
+			s.settle(6, nil, stall, nil, nil)
+		}
+		nextID += 2
+		if l.peer.raft.state == leader {
+			s.transfer(l, x.id)
+		}
+		// only the pair x <-> y communicates for a while, then the new replicas time out
+		pair := func(m pb.Message) bool {
+			return !((m.From == x.id && m.To == y.id) || (m.From == y.id && m.To == x.id) ||
+				(m.Type == pb.TimeoutNow && m.To == x.id))
+		}
+		s.settle(3, pair, stall, map[uint64]bool{l.id: true, y.id: true, nextID - 1: true, nextID - 2: true}, nil)
+		rest := func(m pb.Message) bool { return m.From == x.id || m.To == x.id || m.From == y.id || m.To == y.id }
+		// the old leader stays silent (no heartbeats), so that one of the new replicas times out
+		s.settle(14, rest, stall, map[uint64]bool{x.id: true, y.id: true, l.id: true}, nil)
+	case 3:
+		// a replica applies its own removal before the leader does; a leadership transfer to it
+		// requested in that window must not make the removed replica campaign
+		stall := map[uint64]bool{l.id: true}
+		s.proposeCC(l, opRemove, x.id)
+		s.settle(4, nil, stall, nil, func() bool { return x.mem.rm[x.id] })
+		if l.peer.raft.state == leader && x.mem.rm[x.id] {
+			s.transfer(l, x.id)
+			s.settle(3, nil, stall, map[uint64]bool{l.id: true, y.id: true}, nil)
+		}
+	}
+	return nextID
+}
+
+// healAndCheck: C17. After the fault prefix every replica that was ever started is running,
+// every replica the shard admitted is started, no message is lost any more, and a fair
+// scheduler runs rounds of "tick everybody, deliver everything, save/send, apply". A probe
+// proposal and a probe read are submitted half way. The final "Progress" event lets the
+// specification evaluate its progress predicate on the observed state.
+func (s *vSim) healAndCheck(rounds int) {
+	s.fair = true
+	for _, id := range s.ids {
+		if n := s.nodes[id]; n != nil && n.started && !n.up {
+			s.restart(n)
+		}
+	}
+	for _, id := range s.ids {
+		if kd, ok := s.firstKind[id]; ok && s.nodes[id] == nil {
+			s.join(id, kd)
+		}
+	}
+	s.emit(jEvent{A: "Healed"}, nil)
+	// the randomized timeouts currently armed are replaced as well (a draw the environment makes)
+	for _, n := range s.upNodes() {
+		n.peer.raft.randomizedElectionTimeout = s.et + (n.id-1)%s.et
+		n.lastRto = n.peer.raft.randomizedElectionTimeout
+		s.emit(jEvent{A: "SetRto"}, n)
+	}
+	pendingStatus := [][2]uint64{}
+	round := func() {
+		// a replica whose removal has been applied somewhere is stopped by the operator (a removed
+		// replica that keeps running and never learns about its removal disrupts elections when
+		// neither PreVote nor CheckQuorum is on - known Raft behaviour, not part of the premise)
+		for _, n := range s.upNodes() {
+			for _, o := range s.upNodes() {
+				if o.mem.rm[n.id] && n.up {
+					s.crash(n)
+					n.started = false
+				}
+			}
+		}
+		// a replica admitted by a change that only got applied now is started as well
+		for _, id := range s.ids {
+			if kd, ok := s.firstKind[id]; ok && s.nodes[id] == nil {
+				s.join(id, kd)
+				n := s.nodes[id]
+				n.peer.raft.randomizedElectionTimeout = s.et + (n.id-1)%s.et
+				n.lastRto = n.peer.raft.randomizedElectionTimeout
+				s.emit(jEvent{A: "SetRto"}, n)
+			}
+		}
+		for _, n := range s.upNodes() {
+			s.tick(n)
+		}
+		for pass := 0; pass < 3; pass++ {
+			for _, m := range s.sortedNet() {
+				if _, ok := s.net[msgKey(m)]; !ok {
+					continue
+				}
+				if m.Type == pb.InstallSnapshot {
+					pendingStatus = append(pendingStatus, [2]uint64{m.From, m.To})
+				}
+				s.deliver(m, false)
+			}
+			for _, n := range s.upNodes() {
+				if n.peer.HasUpdate(true) {
+					s.ready(n)
+				}
+				for n.aq != nil || len(n.alist) > 0 {
+					s.applyOne(n)
+				}
+			}
+		}
+		// the transport reports a delivered snapshot to the sender
+		for _, p := range pendingStatus {
+			if n := s.nodes[p[0]]; n != nil && n.up {
+				s.snapStatus(n, p[1], false)
+			}
+		}
+		pendingStatus = pendingStatus[:0]
+	}
+	for i := 0; i < rounds; i++ {
+		round()
+	}
+	// probes: a proposal and a linearizable read at every running replica that may serve them
+	probeVal := uint64(900000)
+	probeCtx := uint64(900000)
+	for _, n := range s.upNodes() {
+		if n.peer.raft.state != witness {
+			probeVal++
+			s.propose(n, probeVal)
+			probeCtx++
+			s.readIndex(n, probeCtx)
+		}
+	}
+	for i := 0; i < rounds; i++ {
+		round()
+	}
+	s.emit(jEvent{A: "Progress", Val: uint64(rounds)}, nil)
+}
+
 func newSim(t *testing.T, seed int64, out *bufio.Writer, tid int, maxN int) *vSim {
 	s := &vSim{t: t, rng: rand.New(rand.NewSource(seed)), nodes: map[uint64]*vNode{},
 		net: map[string]pb.Message{}, et: 5, ht: 1, out: out, tid: tid,
@@ -1283,6 +1560,7 @@ func TestVerifRsim(t *testing.T) {
 	first := envInt("VERIF_FIRST", 0)
 	preVote := os.Getenv("VERIF_PREVOTE") == "1"
 	checkQ := os.Getenv("VERIF_CHECKQUORUM") == "1"
+	progress := envInt("VERIF_PROGRESS", 0)
 	f, err := os.Create(outPath)
 	if err != nil {
 		t.Fatal(err)
@@ -1293,10 +1571,12 @@ func TestVerifRsim(t *testing.T) {
 	total := map[string]int{}
 	for i := 0; i < traces; i++ {
 		tid := first + i
+		seedGlobalRand(seed*7368787 + int64(tid))
 		s := newSim(t, seed*1000003+int64(tid), w, tid, 5)
 		s.preVote, s.checkQ = preVote, checkQ
 		o := simOpts{steps: steps, maxN: 3 + s.rng.Intn(3), chaos: []int{0, 20, 50, 80}[s.rng.Intn(4)],
-			withCC: s.rng.Intn(3) > 0, withSnap: s.rng.Intn(3) > 0, crash: s.rng.Intn(2) == 0}
+			withCC: s.rng.Intn(3) > 0, withSnap: s.rng.Intn(3) > 0, crash: s.rng.Intn(2) == 0,
+			scenarios: os.Getenv("VERIF_SCENARIOS") != "0"}
 		func() {
 			defer func() {
 				if r := recover(); r != nil {
@@ -1304,6 +1584,9 @@ func TestVerifRsim(t *testing.T) {
 				}
 			}()
 			s.randomRun(o)
+			if progress > 0 {
+				s.healAndCheck(progress)
+			}
 		}()
 		for k, v := range s.stats {
 			total[k] += v
